@@ -45,6 +45,9 @@ impl Prop for C13P {
                 v.push(format!("faultfill {}x{}", c, r));
             }
         }
+        for (c, r) in super::hugezst::shapes() {
+            v.push(format!("hugezst {}x{}", c, r));
+        }
         v
     }
     fn run_unit(&self, unit: &str, ctx: &mut Ctx) {
@@ -56,6 +59,11 @@ impl Prop for C13P {
                 .filter(|o| matches!(o, super::ops::Op::Swap(..) | super::ops::Op::SwapRows(..) | super::ops::Op::SwapCols(..) | super::ops::Op::RowPairWrite(..) | super::ops::Op::Fill))
                 .collect();
             super::ops::zst_panic_differential(c, r, &ops, ctx);
+            return;
+        }
+        if let Some(dims) = unit.strip_prefix("hugezst ") {
+            let (c, r) = super::hugezst::parse_shape(dims);
+            run_huge_zst(c, r, ctx);
             return;
         }
         if let Some(dims) = unit.strip_prefix("faultfill ") {
@@ -70,6 +78,7 @@ impl Prop for C13P {
         "for every receiver (owned arrays of every shape, every window of the listed parents as TooDeeViewMut, nested windows in the thorough tier, and two third-party implementors that forward only the required trait methods so that every default method body runs): \
          swap(a,b) for all coordinate pairs in (0..=dim+1)^4 plus huge components, swap_rows / swap_cols / row_pair_mut for all index pairs in (0..=dim+1 + huge)^2, fill. \
          In range: exactly the named cells/rows/columns exchanged (whole parent compared with the model, so cells outside a window are covered), row_pair_mut slices compared by address and order; out of range (or r1==r2 for row_pair_mut): must panic and leave the parent unchanged. \
+         Arrays of () with close to usize::MAX cells and their mutable windows: swap between corner cells and row_pair_mut of the first / last rows must succeed (rows of the window's width, in the order asked), any coordinate or row just outside or far outside must panic (only these constant-time primitives are used there). \
          After a fill whose Clone panics at any call (caught) the swap primitives must still do exactly their job on the surviving array. Arrays and windows of the zero-sized () must accept and reject exactly the same arguments as arrays of ordinary elements (shapes up to 3x3). A case is (receiver, call, arguments); non-trivial when the receiver is non-empty; distinct by (receiver, call, arguments)."
             .into()
     }
@@ -350,6 +359,86 @@ fn judge(cs: &mut crate::engine::Case, op: &str, valid: bool, returned: bool, di
         (false, true) => {
             cs.outcome("accepted-invalid");
             cs.fail(&format!("{}:accepts-out-of-range", op), format!("out-of-range arguments but the call returned{}", diff.map(|d| format!(" ({})", d)).unwrap_or_default()));
+        }
+    }
+}
+
+/// swap and row_pair_mut on arrays of () with close to usize::MAX cells and on their mutable windows: the
+/// offset arithmetic must not overflow for cells / rows that exist; everything outside must still be rejected.
+fn run_huge_zst(c: usize, r: usize, ctx: &mut Ctx) {
+    use toodee::TooDee;
+    for (s, e) in super::hugezst::windows(c, r) {
+        let (wc, wr) = (e.0 - s.0, e.1 - s.1);
+        let xs: Vec<usize> = {
+            let mut v = vec![0, wc / 2, wc - 1, wc, wc.wrapping_add(1), usize::MAX];
+            v.sort_unstable();
+            v.dedup();
+            v
+        };
+        let ys: Vec<usize> = {
+            let mut v = vec![0, wr / 2, wr - 1, wr, wr.wrapping_add(1), usize::MAX];
+            v.sort_unstable();
+            v.dedup();
+            v
+        };
+        for window in [false, true] {
+            if !window && (s, e) != ((0, 0), (c, r)) {
+                continue;
+            }
+            // swap: one corner cell against every probe coordinate, both argument orders
+            for &x in &xs {
+                for &y in &ys {
+                    for flip in [false, true] {
+                        ctx.case(
+                            || format!("TooDee<()> {}x{} window {:?}-{:?} ({}) swap of (0,{}) and ({},{}){}", c, r, s, e, if window { "view_mut" } else { "owned" }, wr - 1, x, y, if flip { " reversed" } else { "" }),
+                            |cs| {
+                                let valid = x < wc && y < wr;
+                                if valid {
+                                    cs.nontrivial((c, r, s, e, window, x, y, flip));
+                                }
+                                let mut t: TooDee<()> = super::hugezst::array(c, r);
+                                let (a, b) = if flip { ((x, y), (0, wr - 1)) } else { ((0, wr - 1), (x, y)) };
+                                let res = if window { guarded(|| t.view_mut(s, e).swap(a, b)) } else { guarded(|| t.swap(a, b)) };
+                                judge(cs, "swap", valid, res.is_ok(), None);
+                            },
+                        );
+                    }
+                }
+            }
+            // row_pair_mut: the first row against every probe row, both orders
+            for &y in &ys {
+                for flip in [false, true] {
+                    ctx.case(
+                        || format!("TooDee<()> {}x{} window {:?}-{:?} ({}) row_pair_mut of 0 and {}{}", c, r, s, e, if window { "view_mut" } else { "owned" }, y, if flip { " reversed" } else { "" }),
+                        |cs| {
+                            let valid = y < wr && y != 0;
+                            if valid {
+                                cs.nontrivial((c, r, s, e, window, y, flip));
+                            }
+                            let mut t: TooDee<()> = super::hugezst::array(c, r);
+                            let (r1, r2) = if flip { (y, 0) } else { (0, y) };
+                            let res = if window {
+                                guarded(|| {
+                                    let mut v = t.view_mut(s, e);
+                                    let (p, q) = v.row_pair_mut(r1, r2);
+                                    (p.len(), q.len())
+                                })
+                            } else {
+                                guarded(|| {
+                                    let (p, q) = t.row_pair_mut(r1, r2);
+                                    (p.len(), q.len())
+                                })
+                            };
+                            judge(cs, "row_pair_mut", valid, res.is_ok(), None);
+                            if let (true, Ok(l)) = (valid, &res) {
+                                if *l != (wc, wc) {
+                                    cs.fail("row_pair_mut:wrong-rows", format!("rows of length {:?} returned, the window is {} wide", l, wc));
+                                }
+                            }
+                        },
+                    );
+                }
+            }
         }
     }
 }
